@@ -31,6 +31,34 @@ def mulTy : Ty → Ty → Option Ty
   | .mutez, .nat | .nat, .mutez => some .mutez
   | _, _ => none
 
+def edivTy : Ty → Ty → Option (Ty × Ty)
+  | .nat, .nat => some (.nat, .nat)
+  | .nat, .int | .int, .nat | .int, .int => some (.int, .nat)
+  | .mutez, .nat => some (.mutez, .mutez)
+  | .mutez, .mutez => some (.nat, .mutez)
+  | _, _ => none
+
+def andTy : Ty → Ty → Option Ty
+  | .bool, .bool => some .bool
+  | .nat, .nat | .int, .nat | .nat, .int => some .nat
+  | _, _ => none
+
+/-- OR and XOR -/
+def orTy : Ty → Ty → Option Ty
+  | .bool, .bool => some .bool
+  | .nat, .nat => some .nat
+  | _, _ => none
+
+def shiftTy : Ty → Ty → Option Ty
+  | .nat, .nat => some .nat
+  | _, _ => none
+
+def subMutezTy : Ty → Ty → Option Ty
+  | .mutez, .mutez => some (.option .mutez)
+  | _, _ => none
+
+def edivResTy (a b : Ty) : Option Ty := (edivTy a b).map fun p => .option (.pair p.1 p.2)
+
 /-- types on which the modelled COMPARE is defined -/
 def simpleComparable : Ty → Bool
   | .int | .nat | .mutez | .timestamp | .string | .bytes | .bool | .unit => true
@@ -95,6 +123,9 @@ def step : Instr → List Ty → Option TRes
   | .ADD, a :: b :: s => (addTy a b).map fun t => .ok (t :: s)
   | .SUB, a :: b :: s => (subTy a b).map fun t => .ok (t :: s)
   | .MUL, a :: b :: s => (mulTy a b).map fun t => .ok (t :: s)
+  | .EDIV, a :: b :: s => (edivResTy a b).map fun t => .ok (t :: s)
+  | .LSL, a :: b :: s | .LSR, a :: b :: s => (shiftTy a b).map fun t => .ok (t :: s)
+  | .SUB_MUTEZ, a :: b :: s => (subMutezTy a b).map fun t => .ok (t :: s)
   | .NEG, .int :: s | .NEG, .nat :: s => some (.ok (.int :: s))
   | .ABS, .int :: s => some (.ok (.nat :: s))
   | .ISNAT, .int :: s => some (.ok (.option .nat :: s))
@@ -104,7 +135,8 @@ def step : Instr → List Ty → Option TRes
     some (.ok (.bool :: s))
   | .NOT, .bool :: s => some (.ok (.bool :: s))
   | .NOT, .nat :: s | .NOT, .int :: s => some (.ok (.int :: s))
-  | .AND, .bool :: .bool :: s | .OR, .bool :: .bool :: s | .XOR, .bool :: .bool :: s => some (.ok (.bool :: s))
+  | .AND, a :: b :: s => (andTy a b).map fun t => .ok (t :: s)
+  | .OR, a :: b :: s | .XOR, a :: b :: s => (orTy a b).map fun t => .ok (t :: s)
   | .CONCAT, .string :: .string :: s => some (.ok (.string :: s))
   | .CONCAT, .bytes :: .bytes :: s => some (.ok (.bytes :: s))
   | .CONCAT, .list .string :: s => some (.ok (.string :: s))
